@@ -41,14 +41,14 @@ let zneg z = Z.opp z
 let zpos z = (match z with Zpos _ -> true | _ -> false)
 
 (* ---- states ---- *)
-type comp = { kind : char; empty : bool; cons : con list; cgs : pcg list }
+type comp = { kind : char; empty : bool; cons : con list; cgs : pcg list; div1 : bool (* grid: canonical point has divisor 1 *) }
 type st = { sid : int; flag : bool; dim : int; c1 : comp; c2 : comp; ok : bool; ok1 : bool; ok2 : bool; idem : bool }
 
 let read_comp c dim =
   let k = (next c).[0] in let e = nexti c = 1 in
-  if e then { kind = k; empty = true; cons = []; cgs = [] }
-  else if k = 'P' then (expect c "cons"; { kind = k; empty = false; cons = read_cons c dim; cgs = [] })
-  else (expect c "cgs"; { kind = k; empty = false; cons = []; cgs = read_cgs c dim })
+  if e then { kind = k; empty = true; cons = []; cgs = []; div1 = true }
+  else if k = 'P' then (expect c "cons"; { kind = k; empty = false; cons = read_cons c dim; cgs = []; div1 = true })
+  else (expect c "cgs"; let g = read_cgs c dim in expect c "div"; let d = next c in { kind = k; empty = false; cons = []; cgs = g; div1 = (d = "1") })
 let parse_st line =
   let c = { t = split line } in
   expect c "st"; let sid = nexti c in let flag = nexti c = 1 in let dim = nexti c in
@@ -78,8 +78,10 @@ let fail kind detail = Printf.printf "FAIL %s %d %s | %s | %s\n" !cur_case !cur_
 let undec kind = incr undecided; Printf.printf "UNDECIDED %s %d %s\n" !cur_case !cur_step kind
 
 (* a three-valued verdict: Some true = holds, Some false = violated, None = undecided *)
+let taint_hook : (unit -> string) ref = ref (fun () -> "")
 let judge kind detail (v : bool option) =
   incr checks;
+  let detail = if String.length kind > 4 && String.sub kind 0 4 = "qry:" then !taint_hook () ^ detail else detail in
   match v with Some true -> incr nt | Some false -> incr nt; fail kind detail | None -> undec kind
 
 (* ---- meets ---- *)
@@ -140,6 +142,7 @@ let samples_of dim (m : meet) : q list list option =
 (* is a included in b?  exact when both are constraint systems, sampled otherwise (a violation found by
    sampling is still a definite violation: the witness point is checked by mem_*_b, proved exact) *)
 let witness = ref ""
+let witness_pt : q list option ref = ref None
 let incl_meet dim a b : bool option =
   if a.mempty then Some true
   else if exact a && exact b then timed (fun () -> j_incl (nat (dim + 1)) (to_sys a) (to_sys b)) None
@@ -150,7 +153,7 @@ let incl_meet dim a b : bool option =
     | Some pts ->
       sample_points := !sample_points + List.length pts;
       (match List.find_opt (fun p -> not (mem_meet b p)) pts with
-       | Some p -> witness := string_of_pt p; Some false
+       | Some p -> witness := string_of_pt p; witness_pt := Some p; Some false
        | None -> Some true)
   end
 let empty_meet dim a : bool option =
@@ -181,7 +184,7 @@ let comp_is_empty dim a : bool option =
 let comp_equiv_meet dim (a : comp) (m : meet) : bool option =
   if a.kind = 'P' then (if exact m then timed (fun () -> j_equiv (nat (dim + 1)) (comp_sys a) (to_sys m)) None else None)
   else if m.mcons <> [] && not m.mempty then None
-  else comp_equiv dim a { kind = 'G'; empty = m.mempty; cons = []; cgs = m.mcgs }
+  else comp_equiv dim a { kind = 'G'; empty = m.mempty; cons = []; cgs = m.mcgs; div1 = true }
 
 (* ---- topology of the components per pair token ---- *)
 let pair = ref "CG" and red = ref 'D'
@@ -214,10 +217,15 @@ let grid_point dim (c : comp) = if c.kind <> 'G' || c.empty then None else
   | None -> None
 let nonintegral p = List.exists (fun (x : q) -> (qred x).qden <> XH) p
 let maxmin_suspect_expr dim (b : comp) (e : lin) =
-  (not (is_z0 e.lcst)) && (match grid_point dim b with Some p -> nonintegral p | None -> false)
+  b.kind = 'G' && (not b.empty) && (not (is_z0 e.lcst)) && (not b.div1)
 let maxmin_suspect dim (a : comp) (b : comp) =
-  List.exists (fun g -> not (is_z0 g.gm) && maxmin_suspect_expr dim b g.ge) a.cgs
+  (* a congruence of a is bounded on the grid b whose canonical point has a divisor <> 1 (the inhomogeneous term of
+     the MINIMIZED congruence the reduction uses is not observable: any proper congruence counts) *)
+  a.kind = 'G' && b.kind = 'G' && (not a.empty) && (not b.empty) && (not b.div1) && List.exists (fun g -> not (is_z0 g.gm)) a.cgs
+let tainted = ref false   (* a tagged loss happened in the reduction implied by the current step *)
 let tag_maxmin = "[grid-maxmin] "
+
+let () = taint_hook := (fun () -> if !tainted then tag_maxmin else "")
 
 (* ---- reduce-like transition ---- *)
 let check_reduce_like (o : st) (n : st) ~(must_flag : bool) =
@@ -225,10 +233,15 @@ let check_reduce_like (o : st) (n : st) ~(must_flag : bool) =
   if n.dim <> o.dim then fail "reduce/dim" "dimension changed";
   judge "reduce/grow" "component 1 gained points" (comp_incl dim n.c1 o.c1);
   judge "reduce/grow" "component 2 gained points" (comp_incl dim n.c2 o.c2);
-  witness := "";
+  witness := ""; witness_pt := None;
   let mo = meet_of o and mn = meet_of n in
   let v = incl_meet dim mo mn in
-  let tag = if v = Some false && (!red = 'G' || !red = 'P') && (maxmin_suspect dim o.c1 o.c2 || maxmin_suspect dim o.c2 o.c1) then tag_maxmin else "" in
+  (* the exchange refines the grids before asking them for bounds: the grid that is asked may have acquired its
+     non-integer point during the reduction; then the lost common point itself is non-integer *)
+  let wit_nonint = (match !witness_pt with Some p -> List.exists (fun (x : q) -> (qred x).qden <> XH) p | None -> false) in
+  let tag = if v = Some false && (!red = 'G' || !red = 'P') && o.c1.kind = 'G' && o.c2.kind = 'G'
+               && (maxmin_suspect dim o.c1 o.c2 || maxmin_suspect dim o.c2 o.c1 || wit_nonint) then tag_maxmin else "" in
+  if tag <> "" then tainted := true;
   judge "reduce/lost-point" (tag ^ "a point of the intersection was lost " ^ !witness) v;
   if exact mo && exact mn then bump "meet-exact" else bump "meet-sampled";
   if o.flag then begin
@@ -402,7 +415,7 @@ let () =
       | "end" -> Printf.printf "NT %s %d\n" !cur_case !nt; (match read_obs () with Some "end" -> () | Some l -> raise (Syntax ("obs out of step at end: " ^ l)) | None -> ())
       | _ when cmd.[0] = '#' -> ()
       | _ ->
-        incr cur_step; incr steps;
+        incr cur_step; incr steps; tainted := false;
         let resp = (match read_obs () with Some l -> l | None -> raise (Syntax "obs ended")) in
         (* a `ret b` line may precede `res` *)
         let ret, resp = if String.length resp > 4 && String.sub resp 0 4 = "ret " then (Some (String.sub resp 4 1 = "1"), (match read_obs () with Some l -> l | None -> "")) else None, resp in
@@ -460,7 +473,8 @@ let () =
                         let cb (cm : comp) = if cm.empty then Some true else if cm.kind = 'P' then timed (fun () -> j_is_bounded (nat dim) (comp_sys cm)) None
                           else (match timed (fun () -> j_grid_gens (nat dim) cm.cgs) None with
                                 | Some g -> Some (List.for_all (function QPoint _ -> true | _ -> false) g) | None -> None) in
-                        let v = (match cb x.c1, cb x.c2 with Some true, _ | _, Some true -> Some true | Some false, Some false -> Some false | _ -> None) in
+                        let xn = (match List.find_opt (fun n -> n.sid = id) news with Some n -> n | None -> x) in
+                        let v = (match cb xn.c1, cb xn.c2 with Some true, _ | _, Some true -> Some true | Some false, Some false -> Some false | _ -> None) in
                         judge k "answered bounded, no component is bounded" v
                       end
                     end else bump "answer-indefinite"
